@@ -135,6 +135,8 @@ pub struct Plan {
     pub stall: Option<(usize, u64)>,
     /// ... or the first write of a data block does.
     pub stall_block_ms: Option<u64>,
+    /// Every op with this verb on a path ending like this takes this many milliseconds longer.
+    pub stall_paths: Vec<(String, String, u64)>,
 }
 
 struct ActorState {
@@ -373,11 +375,16 @@ impl Interceptor for ActorIcpt {
             let by_index = g.plan.stall.filter(|(k, _)| *k == g.idx && !g.frozen).map(|x| x.1);
             if by_index.is_none() && op.verb == Verb::Write && op.path.starts_with("d/") && !g.frozen {
                 g.plan.stall_block_ms.take()
+            } else if by_index.is_none() {
+                g.plan.stall_paths.iter().find(|(v, sfx, _)| *v == verb && op.path.trim_end_matches('/').ends_with(sfx.as_str())).map(|x| x.2)
             } else {
                 by_index
             }
         };
         if let Some(ms) = stall {
+            if std::env::var("CV_DEBUG_STALL").is_ok() {
+                eprintln!("stall {ms} ms before {verb} {}", op.path);
+            }
             std::thread::sleep(std::time::Duration::from_millis(ms));
         }
         let mut g = self.st.lock().unwrap();
